@@ -302,7 +302,7 @@ var vDispatchPath = regexp.MustCompile(`^(/[A-Za-z0-9_~$&+,;=:@-][A-Za-z0-9._~$&
 // the real route table: whatever the path, the upstream is reached only through the session
 // chain and the Proxy gate; the auth-only, user-info and sign-out endpoints sit behind the
 // session chain and never reach the upstream
-// verif: unwind=24 strlen=18 unblock=github.com/gorilla/mux also=C19 steps=6000000 paths=60000 tstrlen=24
+// verif: unwind=24 strlen=18 unblock=github.com/gorilla/mux also=C19,C17 steps=6000000 paths=60000 tstrlen=24
 func vh_C01_dispatch() {
 	g := vNewGate()
 	g.prov.data = &providers.ProviderData{}
